@@ -216,6 +216,16 @@ namespace
     auto w = make_world(text);
     const auto pr = probes(false, o.area_only, o.long_traces, o.many_depth_points);
     Tally t;
+    // class of a query that throws on the moved world: which lookup gave up, and whether the rotation is a hair off a quarter turn
+    // (rectangular plates then have corners that are cocircular up to rounding, the situation in which the triangulation of a depth surface can come out incomplete)
+    auto throw_class = [&](const std::string &what)
+    {
+      std::string c;
+      if (what.find("not in any triangle") != std::string::npos) c += "/depth-surface-lookup-finds-no-triangle";
+      const double r = std::fabs(std::remainder(m.angle_deg, 90.0));
+      if (r > 0 && r < 0.01) c += "/rotation-within-0.01-degrees-of-a-quarter-turn";
+      return c;
+    };
     for (size_t i = 0; i < pr.size(); ++i)
       {
         const bool exact = m.exact && o.area_only;
@@ -226,7 +236,7 @@ namespace
         try { got = w->properties(p, pr[i].depth, REQ); }
         catch (const std::exception &e)
           {
-            ctx.violation("C08/cartesian/query-on-moved-world-throws", JObj().str("what", std::string(e.what()).substr(0, 500)).str("motion", m.name).str("base", BASE_NAMES[b]).raw("moved_point", jarr(p)).num("depth", pr[i].depth).str("moved_world", text).done());
+            ctx.violation("C08/cartesian/query-on-moved-world-throws" + throw_class(e.what()), JObj().str("what", std::string(e.what()).substr(0, 500)).str("motion", m.name).str("base", BASE_NAMES[b]).raw("moved_point", jarr(p)).num("depth", pr[i].depth).str("moved_world", text).done());
             continue;
           }
         ctx.eval();
@@ -244,7 +254,13 @@ namespace
       {
         if (!base.robust2[i]) { ++t.skipped; continue; }
         const std::array<double,2> q = {{pr2[i].x, pr2[i].z}};
-        const std::vector<double> got = w->properties(q, pr2[i].depth, REQ);
+        std::vector<double> got;
+        try { got = w->properties(q, pr2[i].depth, REQ); }
+        catch (const std::exception &e)
+          {
+            ctx.violation("C08/cartesian/2d-query-on-moved-world-throws" + throw_class(e.what()), JObj().str("what", std::string(e.what()).substr(0, 500)).str("motion", m.name).str("base", BASE_NAMES[b]).raw("point_2d", jarr(q)).num("depth", pr2[i].depth).str("moved_world", text).done());
+            continue;
+          }
         ctx.eval();
         ++n2;
         compare(got, base.ans2[i], false, "C08/cartesian/2d", [&]()
